@@ -47,25 +47,33 @@ Definition pkg_satisfies_b (c : cstr) (k : cpkg) : bool :=
   (String.eqb (k_name k) (s_name c) && ver_ok_b c (k_ver k)) || existsb (provide_ok_b c) (k_provs k).
 Definition satisfies_dep_b (S : list cpkg) (c : cstr) : bool := existsb (pkg_satisfies_b c) S.
 
-(* WHY a dependency of member [m] is unsatisfied — names the mechanism:
-     install-if-member        m was added by the install_if loop (its dependencies are never expanded)
+(* WHY constraint [c] — a dependency of member [m], or a request when [m] is
+   None — is unsatisfied.  The reason names what the install set looks like, and
+   with it the mechanism of the solver that produces such a set:
+     install-if-member        m was added by the install_if loop (its dependencies are never
+                              expanded); for a request: a member of the requested name was
      self-provided            m provides the name itself (skipped by myProvides) at a version that fails
      same-name-other-version  a member has the name, at a version that fails
      provider-other-version   a member provides the name, at a version (or without one) that fails
-     absent                   no member has or provides the name *)
-Definition unsat_reason (S : list cpkg) (m : option cpkg) (c : cstr) : string :=
-  match m with
-  | Some k =>
-      if match k_iifs k with [] => false | _ => true end then "install-if-member"
-      else if my_provides k (s_name c) || my_provides k (s_raw c) then "self-provided"
-      else if existsb (fun j => String.eqb (k_name j) (s_name c)) S then "same-name-other-version"
-      else if existsb (fun j => existsb (fun pv => String.eqb (s_name pv) (s_name c)) (k_provs j)) S then "provider-other-version"
-      else "absent"
-  | None =>
-      if existsb (fun j => String.eqb (k_name j) (s_name c)) S then "same-name-other-version"
-      else if existsb (fun j => existsb (fun pv => String.eqb (s_name pv) (s_name c)) (k_provs j)) S then "provider-other-version"
-      else "absent"
-  end.
+     sibling-of-member        a package of the universe would satisfy c, is not a member, and a
+                              member has ITS name (the satisfying package lost the de-duplication by name)
+     absent                   nothing in the set relates to the name *)
+Definition names_it (c : cstr) (j : cpkg) : bool := String.eqb (k_name j) (s_name c).
+Definition provides_it (c : cstr) (j : cpkg) : bool :=
+  existsb (fun pv => String.eqb (s_name pv) (s_name c)) (k_provs j).
+Definition has_iif (k : cpkg) : bool := match k_iifs k with [] => false | _ => true end.
+Definition unsat_reason (U S : list cpkg) (m : option cpkg) (c : cstr) : string :=
+  if match m with
+     | Some k => has_iif k
+     | None => existsb (fun j => names_it c j && has_iif j) S
+     end then "install-if-member"
+  else if match m with Some k => my_provides k (s_name c) || my_provides k (s_raw c) | None => false end
+  then "self-provided"
+  else if existsb (names_it c) S then "same-name-other-version"
+  else if existsb (provides_it c) S then "provider-other-version"
+  else if existsb (fun q => pkg_satisfies_b c q && existsb (fun j => String.eqb (k_name j) (k_name q)) S) U
+  then "sibling-of-member"
+  else "absent".
 
 Definition pkg_eqb (a b : pkg) : bool :=
   String.eqb (p_name a) (p_name b) && String.eqb (p_version a) (p_version b) &&
@@ -77,12 +85,12 @@ Fixpoint nodup_b (l : list string) : bool :=
   match l with [] => true | x :: t => negb (mem_str x t) && nodup_b t end.
 
 Definition closed_check_c (U : list cpkg) (W : list cstr) (S : list cpkg) : list string :=
-  flat_map (fun w => if satisfies_dep_b S w then [] else [String.append "request-unsat/" (unsat_reason S None w)]) W ++
+  flat_map (fun w => if satisfies_dep_b S w then [] else [String.append "request-unsat/" (unsat_reason U S None w)]) W ++
   flat_map (fun k =>
     flat_map (fun d =>
       match d_neg d with
       | Some _ => []
-      | None => if satisfies_dep_b S (d_pos d) then [] else [String.append "dep-unsat/" (unsat_reason S (Some k) (d_pos d))]
+      | None => if satisfies_dep_b S (d_pos d) then [] else [String.append "dep-unsat/" (unsat_reason U S (Some k) (d_pos d))]
       end) (k_deps k)) S ++
   (if nodup_b (List.map k_name S) then [] else ["dup-name"]) ++
   (if forallb (fun k => existsb (fun u => pkg_eqb (k_pkg k) (k_pkg u)) U) S then [] else ["member-not-in-universe"]).
